@@ -1,7 +1,7 @@
 (* C11 — the schemas extracted from the current /repo text all match (closed by computation),
    hence every extracted class / helper pair round-trips for all values. *)
 From Coq Require Import ZArith List String Bool.
-From C11 Require Import Prim Schema ProofsPrim ProofsSchema.
+From C11 Require Import Prim Schema Tables ProofsPrim ProofsSchema Json ProofsJson Types ProofsTypes.
 From Gen Require Import Schemas.
 Import ListNotations.
 Open Scope Z_scope.
@@ -12,32 +12,93 @@ Lemma all_match : forallb entry_ok schemas = true.
 Proof. vm_compute. reflexivity. Qed.
 
 Lemma extracted_roundtrip :
-  forall obj_write obj_read ext_write ext_read,
-    (forall t fs bs rest, obj_write t fs = Some bs -> obj_read t (bs ++ rest) = Some (fs, rest)) ->
+  forall obj_write obj_read ext_write ext_read obj_fits,
+    (forall t fs bs rest, obj_write t fs = Some bs -> obj_fits t fs = true -> obj_read t (bs ++ rest) = Some (fs, rest)) ->
     (forall k p bs rest, ext_write k p = Some bs -> ext_read k (bs ++ rest) = Some (p, rest)) ->
     forall name w r, In (name, (w, r)) schemas ->
     forall vs bs rest,
-      write_op obj_write ext_write w vs = Some (bs, []) -> fits r vs = Some [] ->
+      write_op obj_write ext_write w vs = Some (bs, []) -> fits obj_fits r vs = Some [] ->
       read_op obj_read ext_read r (bs ++ rest) = Some (vs, rest).
 Proof.
-  intros ow or ew er Ho He name w r Hin.
+  intros ow or ew er of Ho He name w r Hin.
   pose proof (proj1 (forallb_forall _ _) all_match _ Hin) as HM. cbn in HM.
-  exact (schema_roundtrip_gen ow or ew er Ho He w r HM).
+  exact (schema_roundtrip_gen ow or ew er of Ho He w r HM).
 Qed.
+
+(* ---- tables: field names of writer and reader agree position by position; the two formats store the same
+   attributes; serialize() and deserialize() use the same JSON keys *)
+Definition names_ok (e : string * (list string * list string)) : bool := names_match (fst (snd e)) (snd (snd e)).
+Definition format_ok (e : string * (list string * list string * list string)) : bool :=
+  fields_agree (fst (fst (snd e))) (snd (fst (snd e))) (snd (snd e)).
+Definition keys_ok (e : string * (list string * list string)) : bool := str_set_eqb (fst (snd e)) (snd (snd e)).
+
+Lemma names_all_match : forallb names_ok names = true.
+Proof. vm_compute. reflexivity. Qed.
+
+Lemma formats_agree_table : forallb format_ok format_fields = true /\ forallb keys_ok json_keys = true.
+Proof. split; vm_compute; reflexivity. Qed.
+
+(* ---- the closed development: concrete recursive codec, no hypotheses left *)
+Definition OW := obj_write json_write.
+Definition OR := obj_read json_read.
+Definition EW := extw json_write.
+Definition ER := extr json_read.
+
+Lemma closed_obj : forall n t fs bs rest,
+  OW n t fs = Some bs -> obj_wf n t fs = true -> OR n t (bs ++ rest) = Some (fs, rest).
+Proof. exact (obj_ok json_write json_read json_codec_ok). Qed.
+
+Lemma closed_type : forall n v bs rest,
+  write_type json_write n v = Some bs -> wf_type n v = true -> read_type json_read n (bs ++ rest) = Some (v, rest).
+Proof. exact (type_rt json_write json_read json_codec_ok). Qed.
+
+Lemma closed_file : forall n fs bs rest,
+  write_file json_write n fs = Some bs -> obj_wf n MYPY_FILE fs = true -> read_file json_read n (bs ++ rest) = Some (fs, rest).
+Proof. exact (file_rt json_write json_read json_codec_ok). Qed.
+
+Lemma closed_extracted : forall n name w r, In (name, (w, r)) schemas ->
+  forall vs bs rest,
+    write_op (OW n) EW w vs = Some (bs, []) -> fits (obj_wf n) r vs = Some [] ->
+    read_op (OR n) ER r (bs ++ rest) = Some (vs, rest).
+Proof. exact (extracted_rt_closed json_write json_read json_codec_ok). Qed.
+
+(* injectivity of the whole data-file encoding: equal bytes => equal (abstract) trees *)
+Lemma closed_file_injective : forall n f1 f2 b,
+  write_file json_write n f1 = Some b -> write_file json_write n f2 = Some b ->
+  obj_wf n MYPY_FILE f1 = true -> obj_wf n MYPY_FILE f2 = true -> f1 = f2.
+Proof.
+  intros n f1 f2 b W1 W2 F1 F2.
+  pose proof (closed_file n f1 b [] W1 F1) as P1. pose proof (closed_file n f2 b [] W2 F2) as P2.
+  rewrite P1 in P2. now inversion P2.
+Qed.
+
+(* a nested type: dict[str, list[int] | None] as Instance values, written and read back *)
+Definition t_int : value := VObj INSTANCE (plain_value n_int).
+Definition t_str : value := VObj INSTANCE (plain_value n_str).
+Definition t_none : value := VObj NONE_TYPE [].
+Definition t_list_int : value := VObj INSTANCE [VStr [108; 105; 115; 116]; VRep [[t_int]]; VNone; VNone].
+Definition t_union : value := VObj UNION_TYPE [VRep [[t_list_int]; [t_none]]; VBool true].
+Definition t_dict : value := VObj INSTANCE [VStr [100; 105; 99; 116]; VRep [[t_str]; [t_union]]; VNone; VNone].
+
+Lemma demo_type :
+  wf_type 6 t_dict = true /\
+  exists bs, write_type json_write 6 t_dict = Some bs /\ read_type json_read 6 (bs ++ [9]) = Some (t_dict, [9]).
+Proof. split; [vm_compute; reflexivity|]. eexists; split; [vm_compute; reflexivity|vm_compute; reflexivity]. Qed.
 
 (* a non-trivial instance: CacheMetaEx-like record with an optional str and a huge int *)
 Definition demo_schema : op :=
   seq_of [Tag 22; Rep (seq_of [StrBare]); Opt (seq_of [Tag 4; StrBare]); Tag 3; IntBare; Flags 3%nat; Bool].
 Definition demo_value : list value :=
   [VRep [[VStr [97; 98]]; [VStr []]]; VSome [VStr [195; 169]]; VInt (-(2 ^ 70)); VFlags [true; false; true]; VBool true].
+Definition no_obj_f (t : Z) (fs : list value) : bool := false.
 Definition no_obj_w (t : Z) (fs : list value) : option bytes := None.
 Definition no_obj_r (t : Z) (bs : bytes) : option (list value * bytes) := None.
-Definition no_ext_w (k : Z) (p : list Z) : option bytes := None.
-Definition no_ext_r (k : Z) (bs : bytes) : option (list Z * bytes) := None.
+Definition no_ext_w (k : Z) (p : list value) : option bytes := None.
+Definition no_ext_r (k : Z) (bs : bytes) : option (list value * bytes) := None.
 
 Lemma demo_hyps :
   ops_match demo_schema demo_schema = true /\
   (exists bs, write_op no_obj_w no_ext_w demo_schema demo_value = Some (bs, []) /\
               read_op no_obj_r no_ext_r demo_schema (bs ++ [7]) = Some (demo_value, [7])) /\
-  fits demo_schema demo_value = Some [].
+  fits no_obj_f demo_schema demo_value = Some [].
 Proof. split; [vm_compute; reflexivity|]. split; [eexists; split; vm_compute; reflexivity|vm_compute; reflexivity]. Qed.
